@@ -553,6 +553,16 @@ func TestVerifC04Swarm(t *testing.T) {
 		}
 	}()
 	iters := vfh.EnvInt("VERIF_C04_SWARM_ITERS", 120)
+	only := int64(0)
+	if v := os.Getenv("VERIF_C04_ONLY"); v != "" {
+		var p struct {
+			Seed int64 `json:"seed"`
+		}
+		if err := jsonUnmarshalVF([]byte(v), &p); err != nil {
+			t.Fatal(err)
+		}
+		only, iters = p.Seed, vfh.EnvInt("VERIF_C04_REPEAT", 1)
+	}
 	res.Rule = "one evaluation = one seeded operation sequence (10-23 steps) on a real Swarm with a real resource manager (small random limits) and stub transport connections that own a real connection scope; after every step the swarm is quiescent and Stat() is audited against the live objects; non-trivial = at least one refusal/failure/race stage was hit; distinct = distinct (stage:kind) failure classes hit, counted over the run"
 	path := ""
 	if vfh.Out() != "" {
@@ -561,8 +571,16 @@ func TestVerifC04Swarm(t *testing.T) {
 	}
 	cover := map[string]int{}
 	fired := 0
+	stuck := 0
 	for i := 0; i < iters; i++ {
+		if stuck >= 4 {
+			res.Inc("skipped_after_stuck", iters-i)
+			break
+		}
 		seed := vfh.Seed()*1000003 + int64(i)
+		if only != 0 {
+			seed = only // replay of one scenario (the driver reproduces a rejected ledger before it reports it)
+		}
 		tr := vfh.NewTrace(fmt.Sprintf("s%d", i))
 		before := 0
 		for _, v := range cover {
@@ -571,8 +589,10 @@ func TestVerifC04Swarm(t *testing.T) {
 		dl, hung := vfc04.RunBubble(t, 25*time.Second, func(t *testing.T) { vfC04SwScenario(t, seed, tr, cover) })
 		if dl != "" {
 			tr.Emit("deadlock", "msg", dl)
+			stuck++
 		}
 		if hung != "" {
+			stuck++
 			res.Inc("hangs", 1)
 			res.Sample(map[string]any{"scenario_seed": seed, "hung": hung})
 		}
@@ -586,7 +606,7 @@ func TestVerifC04Swarm(t *testing.T) {
 		res.Count(1, tr.Len())
 		if path != "" {
 			if err := tr.AppendTo(path, map[string]any{"family": "swarm", "cfg": "stub-conns", "plan": fmt.Sprintf("seed=%d", seed), "kind": "sequence",
-				"side": "", "k": 0, "hit": after > before, "stage": "swarm", "hang": hung}); err != nil {
+				"side": "", "k": 0, "hit": after > before, "stage": "swarm", "hang": hung, "p": map[string]any{"seed": seed}}); err != nil {
 				t.Fatal(err)
 			}
 		}
@@ -606,7 +626,7 @@ func TestVerifC04Swarm(t *testing.T) {
 	sort.Strings(keys)
 	res.Set("exits", keys)
 	res.Set("exit_counts", cover)
-	res.Set("evaluations", iters)
+	res.Set("evaluations", res.Replayed)
 	res.Set("fired", fired)
 	if path != "" {
 		res.Traces = []string{path}
